@@ -45,6 +45,7 @@ type Job struct {
 	Pre        map[string]string `json:"pre,omitempty"`      // pre-existing files: path -> content
 	PreAudit   bool              `json:"pre_audit,omitempty"`
 	ForceOrder map[string]int    `json:"force_order,omitempty"`
+	StatFault *ReadFaultSpec `json:"stat_fault,omitempty"` // the Nth successful stat of a file with this suffix answers ENOENT (lagging file system)
 	ReadFault *ReadFaultSpec `json:"read_fault,omitempty"` // the Nth successful read of a file with this suffix fails with EMFILE
 	XDev  string `json:"xdev,omitempty"` // this directory is on another device: renames across its boundary fail with EXDEV
 	PureBuf bool `json:"pure_buf,omitempty"` // replay: the buffer model the recording was made under (vs.PureBuf)
@@ -123,6 +124,7 @@ type ReadFaultSpec struct {
 }
 
 type runner struct {
+	statCount    int
 	opCount      int
 	readCount    int
 	readFaultHit string
@@ -241,6 +243,7 @@ func (r *runner) setup() {
 	r.crashViolations = nil
 	r.protectedHits = nil
 	r.readCount, r.readFaultHit = 0, ""
+	r.statCount = 0
 	r.opCount = 0
 	errLog.Reset()
 	r.env.reset()
@@ -392,6 +395,9 @@ func runWorkflowJob(job *Job, res *Result) {
 	if job.Fault != nil {
 		res.Scenario += fmt.Sprintf("/fault=%s:%s:%s", job.Fault.Proc, job.Fault.Match, job.Fault.Kind)
 	}
+	if job.StatFault != nil {
+		res.Scenario += fmt.Sprintf("/stat-fault=%s:%d", job.StatFault.Suffix, job.StatFault.Nth)
+	}
 	if job.Base == "" {
 		job.Base = fmt.Sprintf("/dev/shm/vw-%d", os.Getpid())
 	}
@@ -473,6 +479,20 @@ func runWorkflowJob(job *Job, res *Result) {
 			if r.opCount == job.OpFaultNth {
 				vs.Note("OPFAULT:" + op + ":" + normPath(path))
 				return &os.PathError{Op: op, Path: path, Err: syscall.EIO}
+			}
+			return nil
+		}
+	}
+	vs.StatFault = nil
+	if job.StatFault != nil {
+		vs.StatFault = func(p string) error {
+			if !strings.HasSuffix(p, job.StatFault.Suffix) || isTemp(normPath(p)) {
+				return nil
+			}
+			r.statCount++
+			if r.statCount == job.StatFault.Nth {
+				vs.Note("STATFAULT:" + normPath(p))
+				return &os.PathError{Op: "stat", Path: p, Err: syscall.ENOENT}
 			}
 			return nil
 		}
